@@ -217,6 +217,117 @@ fn iso_f32(r: &mut Rng) -> nalgebra::Isometry3<f32> {
     )
 }
 
+/// recursive types (outside the Lean model, whose types are finite trees): direct oracles only
+#[derive(savefile_derive::Savefile, Clone, PartialEq, Debug)]
+pub struct TreeA {
+    pub id: u32,
+    pub children: Vec<TreeA>,
+}
+/// `TreeA` one version later: the recursive field was removed, another one added
+#[derive(savefile_derive::Savefile, Debug)]
+pub struct TreeB {
+    pub id: u32,
+    #[savefile_versions = "0..0"]
+    pub children: savefile::Removed<Vec<TreeB>>,
+    #[savefile_versions = "1.."]
+    #[savefile_default_val = "7"]
+    pub extra: u16,
+}
+#[derive(savefile_derive::Savefile, Clone, PartialEq, Debug)]
+pub struct ListA {
+    pub v: u8,
+    pub next: Option<Box<ListA>>,
+}
+#[derive(savefile_derive::Savefile, Debug)]
+pub struct ListB {
+    pub v: u8,
+    #[savefile_versions = "0..0"]
+    pub next: savefile::AbiRemoved<Option<Box<ListB>>>,
+    #[savefile_versions = "1.."]
+    pub tail: String,
+}
+#[derive(savefile_derive::Savefile, Clone, PartialEq, Debug)]
+pub enum Expr {
+    Lit(i32),
+    Neg(Box<Expr>),
+    Add(Box<Expr>, Box<Expr>),
+    Sum(Vec<Expr>),
+}
+/// mutual recursion
+#[derive(savefile_derive::Savefile, Clone, PartialEq, Debug)]
+pub struct Dir {
+    pub name: String,
+    pub entries: Vec<Entry2>,
+}
+#[derive(savefile_derive::Savefile, Clone, PartialEq, Debug)]
+pub enum Entry2 {
+    File(u32),
+    Sub(Dir),
+}
+
+fn gen_tree(r: &mut Rng, depth: u32) -> TreeA {
+    let n = if depth == 0 { 0 } else { r.below(3) as usize };
+    TreeA { id: r.next() as u32, children: (0..n).map(|_| gen_tree(r, depth - 1)).collect() }
+}
+fn gen_list(r: &mut Rng, len: u32) -> ListA {
+    ListA { v: r.next() as u8, next: if len == 0 { None } else { Some(Box::new(gen_list(r, len - 1))) } }
+}
+fn gen_expr(r: &mut Rng, depth: u32) -> Expr {
+    if depth == 0 {
+        return Expr::Lit(r.next() as i32);
+    }
+    match r.below(4) {
+        0 => Expr::Lit(r.next() as i32),
+        1 => Expr::Neg(Box::new(gen_expr(r, depth - 1))),
+        2 => Expr::Add(Box::new(gen_expr(r, depth - 1)), Box::new(gen_expr(r, depth - 1))),
+        _ => Expr::Sum((0..r.below(3)).map(|_| gen_expr(r, depth - 1)).collect()),
+    }
+}
+fn gen_dir(r: &mut Rng, depth: u32) -> Dir {
+    let n = if depth == 0 { 0 } else { r.below(3) as usize };
+    Dir { name: format!("d{}", r.below(100)), entries: (0..n).map(|_| if r.chance(1, 2) { Entry2::File(r.next() as u32) } else { Entry2::Sub(gen_dir(r, depth - 1)) }).collect() }
+}
+
+fn recursive_types(r: &mut Rng, out: &mut Vec<String>) {
+    let depth = 1 + r.below(3) as u32;
+    let t = gen_tree(r, depth);
+    probe("TreeA", &t, |a, b| a == b, |a| format!("{:?}", a).replace(' ', "_"), r, out);
+    let len = r.below(5) as u32;
+    let l = gen_list(r, len);
+    probe("ListA", &l, |a, b| a == b, |a| format!("{:?}", a).replace(' ', "_"), r, out);
+    let e = gen_expr(r, depth);
+    probe("Expr", &e, |a, b| a == b, |a| format!("{:?}", a).replace(' ', "_"), r, out);
+    let d = gen_dir(r, depth);
+    probe("Dir", &d, |a, b| a == b, |a| format!("{:?}", a).replace(' ', "_"), r, out);
+    // C03: data of the recursive type saved at version 0 loads in the later definition that removed the
+    // recursive field (with the schema check: the stored schema is compared with the later definition's view of version 0)
+    out.push("#stat extras-recursive-upgrades 2".into());
+    match save_bytes(&t) {
+        Ok(bytes) => match catch_unwind(AssertUnwindSafe(|| savefile::load_from_mem::<TreeB>(&bytes, 1))) {
+            Ok(Ok(b)) => {
+                if b.id != t.id || b.extra != 7 {
+                    out.push(format!("!C03 upgraded-value-wrong type=TreeB saved-id={} loaded-id={} extra={}", t.id, b.id, b.extra));
+                }
+            }
+            Ok(Err(e)) => out.push(format!("!C03 old-data-rejected type=TreeB (recursive field removed) got={}", err_class(&e))),
+            Err(_) => out.push(format!("!C03 old-data-panics type=TreeB got={}", panic_class(&last_panic()))),
+        },
+        Err(e) => out.push(format!("!C01 save-failed type=TreeA got={}", e)),
+    }
+    match save_bytes(&l) {
+        Ok(bytes) => match catch_unwind(AssertUnwindSafe(|| savefile::load_from_mem::<ListB>(&bytes, 1))) {
+            Ok(Ok(b)) => {
+                if b.v != l.v || !b.tail.is_empty() {
+                    out.push(format!("!C03 upgraded-value-wrong type=ListB saved-v={} loaded-v={} tail={:?}", l.v, b.v, b.tail));
+                }
+            }
+            Ok(Err(e)) => out.push(format!("!C03 old-data-rejected type=ListB (recursive field removed) got={}", err_class(&e))),
+            Err(_) => out.push(format!("!C03 old-data-panics type=ListB got={}", panic_class(&last_panic()))),
+        },
+        Err(e) => out.push(format!("!C01 save-failed type=ListA got={}", e)),
+    }
+}
+
 /// feature-gated library types (nalgebra, emath, ecolor, chrono)
 fn feature_types(r: &mut Rng, out: &mut Vec<String>) {
     use nalgebra::{Isometry3, Point3, Vector3};
@@ -273,6 +384,7 @@ pub fn cases(r: &mut Rng, n: usize) -> Vec<String> {
     let mut out = Vec::new();
     for i in 0..n {
         feature_types(r, &mut out);
+        recursive_types(r, &mut out);
         // bit_vec::BitVec
         let nbits = match i % 4 {
             0 => 0,
